@@ -62,7 +62,9 @@ class Real:
             elif op == "insert":
                 self.nil.insert(k, self.pool[i])
             elif op == "extend":
-                self.nil.extend([self.pool[i], self.pool[j]])
+                # any iterable is a legal argument: a list, a tuple or a one-shot iterator (chosen by the operands)
+                pair = [self.pool[i], self.pool[j]]
+                self.nil.extend(pair if (i + j) % 3 == 0 else (tuple(pair) if (i + j) % 3 == 1 else iter(pair)))
             elif op == "remove":
                 self.nil.remove(It(i))  # an equal object, not necessarily the identical one
             elif op == "pop":
